@@ -37,8 +37,11 @@ LIMITS = ["the order in which a Python set of ints is iterated (all-pairs cover 
           "_get_final_crystal_lattices silently returns an ensemble that drops features (e.g. n=3, 1 lattice of "
           "rank 2 -> [[0, 1]]) instead of raising; outside the property's quantifier, model and implementation "
           "are still compared there",
-          "Crystals: np.argsort(-importance) is not a stable sort, so generated importance scores are pairwise "
-          "distinct; scores are dyadic so that float64 evaluation of every compared score is exact; "
+          "Crystals: np.argsort(-importance) is not a stable sort (NumPy 2: ties come out in an unspecified order) "
+          "while the model's argsort_desc breaks ties by index, so ties in importance scores are EXCLUDED: every "
+          "generated score vector that reaches the use allocation is pairwise distinct (tied vectors are re-drawn; "
+          "the only tied vectors kept are those of the zero-importance class D13, where the call raises whatever "
+          "the order); scores are dyadic so that float64 evaluation of every compared score is exact; "
           "_get_torsions_and_laplacians (prefitting weights -> scores) is replaced by given scores",
           "known finding D13: _get_final_crystal_lattices raises ValueError (int(round(nan))) when a feature has "
           "importance 0; the Crystals theorems assume the use allocation succeeded (crystal_uses = Some uses)"]
